@@ -102,20 +102,36 @@ def reception_stamp(P, R, rid):
 def pending_per_node(P, R, rid):
     """pending requests are summed per node and added to the current node load in the cap."""
     nr = P.unit('strategy:get_node_load_request_map')
-    aug = [a for a in own_nodes(nr.node) if isinstance(a, ast.AugAssign)]
-    ok = len(aug) == 1 and isinstance(aug[0].op, ast.Add) and ast.unparse(aug[0].target) == 'node_load_request_map[machine_id]' \
-        and ast.unparse(aug[0].value) == 'load'
+    ok = node_requests_summed(nr)
     R.check(rid, ok, 'pending requests of all instances of a node are summed', 'pending|node-requests', nr.loc(),
             'get_node_load_request_map does not accumulate (+=) the pending loads of the instances of a node: requests '
             'on sibling instances overwrite each other')
     lv = P.unit('AbstractStartingStrategy.is_loading_valid')
-    ldefs = {a.targets[0].id: ast.unparse(a.value) for a in own_nodes(lv.node) if isinstance(a, ast.Assign)
-             and isinstance(a.targets[0], ast.Name)}
-    nl = ldefs.get('node_loading', '')
-    ok = nl in ('node_load_map.get(machine_id, 0) + node_load_request_map.get(machine_id, 0)',
-                'node_load_request_map.get(machine_id, 0) + node_load_map.get(machine_id, 0)')
+    val, node, inst = loading_terms(P)
+    mid = 'self.supvisors.context.instances[identifier].supvisors_id.local_view.machine_id'
+    ok = node == sorted(['load_details[1].get(%s, 0)' % mid, 'load_details[2].get(%s, 0)' % mid])
     R.check(rid, ok, 'node load = current load + pending requests on that node', 'pending|node_loading', lv.loc(),
-            'is_loading_valid computes node_loading as `%s`' % nl)
+            'is_loading_valid computes node_loading as `%s`' % ' + '.join(node))
+
+
+def node_requests_summed(nr):
+    """get_node_load_request_map: <map>[node of the instance] += load of the instance, for every pending request."""
+    from ..defuse import closed_text
+    aug = [a for a in own_nodes(nr.node) if isinstance(a, ast.AugAssign)]
+    E = 'each(load_request_map.items())'
+    return len(aug) == 1 and isinstance(aug[0].op, ast.Add) and isinstance(aug[0].target, ast.Subscript) and \
+        closed_text(nr, aug[0].target.slice) == 'mapper.instances[%s[0]].local_view.machine_id' % E and \
+        closed_text(nr, aug[0].value) == E + '[1]'
+
+
+def loading_terms(P):
+    """closed forms of what is_loading_valid returns: (validity Compare or None, node-load terms, instance-load terms)."""
+    from ..defuse import defuse, sum_terms
+    lv = P.unit('AbstractStartingStrategy.is_loading_valid')
+    rs = [v for v, f, n in returns(lv) if v is not None]
+    if len(rs) != 1 or not isinstance(rs[0], ast.Tuple) or len(rs[0].elts) != 3:
+        return None, [], []
+    return defuse(lv).closed(rs[0].elts[0]), sum_terms(lv, rs[0].elts[1]), sum_terms(lv, rs[0].elts[2])
 
 
 def application_candidates(P, R, rid):
